@@ -378,11 +378,34 @@ def attrs(case, cap):
                 [("new", "_HPbrandNew"), ("new", "reserved99"), ("new", "__class__x"), ("new", "payload_01")] + \
                 [("new", "brandNewAttr"), ("new", "_brandNewPrivate"), ("property", "identity"), ("property", "payload"),
                  ("property", "length"), ("property", "msgmode"), ("method", "serialize")]
+        def _equal_other(v):
+            """a value that compares equal to v but is another object of another type"""
+            if isinstance(v, bool):
+                return int(v)
+            if isinstance(v, int):
+                return True if v == 1 else (False if v == 0 else float(v)) if abs(v) < 2 ** 53 else v
+            if isinstance(v, float):
+                return int(v) if v == int(v) else v
+            if isinstance(v, bytes):
+                return bytearray(v)
+            if isinstance(v, list):
+                return list(v)
+            return v
+
+        _MISSING = object()
         for nk, n in names:
-            for op in ("set", "del"):
+            # "assigning ANY attribute": a foreign value, the attribute's own current value, and an equal value of another type
+            for op in ("set", "set:same", "set:equal", "del"):
+                cur = vars(m).get(n, _MISSING)
+                if op in ("set:same", "set:equal") and (cur is _MISSING or nk not in ("existing", "private")):
+                    continue
                 try:
                     if op == "set":
                         setattr(m, n, 42)
+                    elif op == "set:same":
+                        setattr(m, n, cur)
+                    elif op == "set:equal":
+                        setattr(m, n, _equal_other(cur))
                     else:
                         delattr(m, n)
                     outcome = "accepted"
@@ -394,7 +417,7 @@ def attrs(case, cap):
                     same = 1 if m.serialize() == before else 0
                 except Exception:  # noqa: BLE001
                     same = 0
-                ev.append([op, nk + ":" + n, outcome, same, cap.size()])
+                ev.append([op.split(":")[0], nk + ":" + n, outcome, same, cap.size()])
                 if same == 0 or outcome == "accepted":
                     # rebuild the message so that later probes start from an intact object
                     try:
